@@ -31,7 +31,7 @@ from .core import Check, MachineryError, workdir
 
 PID = "C07"
 WL = ("ok", "fail", "host", "noprov")
-MODEL_STEPS = {"ok": 4, "fail": 4, "host": 6, "noprov": 2}
+MODEL_STEPS = {"ok": 4, "fail": 4, "host": 7, "noprov": 2}
 _setup_done = [False]
 
 
